@@ -17,7 +17,8 @@ RULE = (
     "lists incl. object; anyOf/oneOf/allOf with 1-3 branches, not, two composition keywords, with or "
     "without sibling type; object class) x any JSON default (emphasis on false 0 0.0 '' [] {} null and "
     "on values invalid for the shape) placed at the root, under a plain/renamed property, or under a "
-    "nested property, x description strings over an alphabet with quotes, backslashes, newlines, CR, "
+    "nested property, or in a definitions entry referenced from 2-3 properties (one dict shared by all "
+    "references after materialize), x description strings over an alphabet with quotes, backslashes, newlines, CR, "
     "tabs, triple quotes, non-ASCII, leading/trailing spaces and quotes, and the empty string; "
     "checks: parsed element at that location carries the identical default (NotPassed where none "
     "declared); multiset of defaults in serialize_json == declared; executed serialize_python "
@@ -119,6 +120,11 @@ def cases(draw):
             # class de-duplication must not let the default leak onto it
             twin = {k: copy.deepcopy(v) for k, v in s.items() if k != "default"}
             twin["type"] = "object"
+            if draw(st.booleans()):
+                # ... or differing ONLY in the description: de-duplication must keep both texts
+                twin = copy.deepcopy(s)
+                twin["type"] = "object"
+                twin["description"] = draw(descriptions) + " (twin)"
             props = {"0twin": twin, name: s}
         schema = {"type": "object", "title": "Inner", "properties": props}
         if draw(st.booleans()):
@@ -133,6 +139,70 @@ def cases(draw):
             schema["description"] = draw(descriptions)
         path = [outer_name, name]
     return {"kind": kind, "where": where, "schema": schema, "path": path}
+
+
+@st.composite
+def shared_cases(draw):
+    """The default-carrying schema is a definitions entry referenced from several properties: after
+    materialize() all references share ONE dict, which the parser visits (and rewrites) repeatedly."""
+    kind, s = draw(core())
+    if isinstance(s, dict) and "title" in s:
+        s = {k: v for k, v in s.items() if k != "title"}  # auto-titled from the pointer
+    names = draw(st.lists(st.sampled_from(["a", "b", "class", "x1", "zz"]), min_size=2, max_size=3, unique=True))
+    root = {"type": "object", "title": "Root", "properties": {n: {"$ref": "#/definitions/shared"} for n in names},
+            "definitions": {"shared": s}}
+    return {"kind": kind, "where": "shared-ref", "document": root, "names": names, "core": s}
+
+
+def shared_predicate(case, stats):
+    from vlib import docs
+    from statham.schema.parser import parse
+    from statham.schema.exceptions import SchemaParseError
+
+    core = case["core"]
+    declared = core.get("default", NotPassed()) if isinstance(core, dict) else NotPassed()
+    fails = []
+
+    def has_empty_key(node):
+        if isinstance(node, dict):
+            return "" in node or any(has_empty_key(v) for v in node.values())
+        return isinstance(node, list) and any(has_empty_key(v) for v in node)
+
+    if has_empty_key(case["document"]):
+        # json_ref_dict cannot address the member "" (pointer segment ""): dependency limit, not statham
+        stats.excluded["empty-string-key (json_ref_dict pointer limit)"] += 1
+        return []
+    try:
+        elements = parse(docs.materialized({"a.json": copy.deepcopy(case["document"])}, "a.json"))
+    except SchemaParseError as exc:
+        stats.case(canon(case["document"]), False, ["shared:parse-refused"])
+        return [{"sub": "parse", "kind": "parse-refused:" + type(exc).__name__, "detail": str(exc)[:200]}]
+    except RecursionError:
+        stats.inconclusive["recursion"] += 1
+        return []
+    except Exception as exc:  # noqa: BLE001
+        if observe.statham_frame(exc) == "?":
+            stats.inconclusive["dependency-error:" + type(exc).__name__] += 1
+            return []
+        raise
+    root = elements[0]
+    for name in case["names"]:
+        target = navigate(root, [name])
+        if target is None:
+            fails.append({"sub": "navigate", "kind": "property-not-found-by-json-name", "path": [name]})
+            continue
+        have = getattr(target, "default", NotPassed())
+        if isinstance(declared, NotPassed):
+            if not isinstance(have, NotPassed):
+                fails.append({"sub": "parse", "kind": "default-invented", "path": [name], "got": repr(have)[:100]})
+        elif isinstance(have, NotPassed):
+            fails.append({"sub": "parse", "kind": "default-dropped-on-a-later-reference", "path": [name],
+                          "declared": declared, "element": repr(target)[:200], "shape": case["kind"]})
+        elif not json_identical(have, declared):
+            fails.append({"sub": "parse", "kind": "default-altered-by-parser", "path": [name], "got": repr(have)[:100]})
+    stats.case(canon(case["document"]), True, ["shape:" + case["kind"], "where:shared-ref",
+                                               "refs:%d" % len(case["names"])], sample={"document": case["document"]})
+    return fails
 
 
 def declared_defaults(schema, acc=None):
@@ -198,6 +268,8 @@ def exec_module(text):
 
 
 def predicate(case, stats):
+    if case.get("where") == "shared-ref":
+        return shared_predicate(case, stats)
     schema = case["schema"]
     fails = []
     parsed = observe.safe_parse(schema)
@@ -244,6 +316,10 @@ def predicate(case, stats):
                           "got": repr(have)[:100]})
         elif not isinstance(want, NotPassed) and (isinstance(have, NotPassed) or not json_identical(have, want)):
             fails.append({"sub": "parse", "kind": "sibling-default-altered", "path": pth})
+        if isinstance(el, ObjectMeta) and isinstance(sub.get("description"), str):
+            if isinstance(el.description, NotPassed) or el.description != sub["description"]:
+                fails.append({"sub": "description", "kind": "description-of-another-schema", "path": pth,
+                              "declared": sub["description"], "got": repr(el.description)[:100]})
     # serialize_json: multiset of defaults
     want = sorted(canon(d) for d in declared_defaults(schema))
     js = observe.ser_json(root)
@@ -259,9 +335,10 @@ def predicate(case, stats):
     from vlib.readback import get_children
 
     classes = {c.__name__: c for c in [root] + list(get_children(root)) if isinstance(c, ObjectMeta)}
+    has_twin = "0twin" in canon(schema)
     for title, text in descs.items():
         cls = classes.get(title)
-        if cls is None:
+        if cls is None or (has_twin and title == "Core"):
             continue
         have = cls.description
         if text is None:
@@ -301,7 +378,7 @@ def predicate(case, stats):
                             not isinstance(b, NotPassed) and not json_identical(a, b)):
                         fails.append({"sub": "python", "kind": "property-default-differs-in-python",
                                       "class": title, "property": pname, "detail": [repr(a)[:80], repr(b)[:80]]})
-                text = descs.get(title)
+                text = None if (has_twin and title == "Core") else descs.get(title)
                 if text is not None:
                     gdesc = gen.description
                     if isinstance(gdesc, NotPassed) or gdesc != text:
@@ -324,4 +401,4 @@ replay_predicate = predicate
 
 
 def run_shard(ctx, stats):
-    return runner.hyp_run(ctx, stats, cases(), predicate, BUDGET[ctx.tier])
+    return runner.hyp_run(ctx, stats, st.one_of(cases(), cases(), cases(), shared_cases()), predicate, BUDGET[ctx.tier])
